@@ -421,7 +421,7 @@ def decorate_cases(run):
 
 def run(run):
     # exhaustive sweep first: the first failure reported is then a shortest one
-    L = 5 if run.thorough() else 4
+    L = 6 if run.thorough() else 4
     total = 0
     for spec, kind, seqs in sweep_cases(L):
         w = World(spec)
